@@ -471,7 +471,11 @@ def finish(ctx, level, coverage, assumptions=None, findings_desc=None):
         "violations": len(ctx.violations),
     }
     if not ctx.replay:
-        with open(os.path.join(VERIF, "evidence", ctx.prop + ".json"), "w") as f:
+        # evidence describes /repo; a run against a scratch copy (VERIF_REPO, used for the seeded changes) writes its
+        # record next to the scratch output instead of over the committed file
+        evdir = os.path.join(VERIF, "evidence") if os.path.realpath(REPO) == "/repo" else "/dev/shm/verif_scratch_evidence"
+        os.makedirs(evdir, exist_ok=True)
+        with open(os.path.join(evdir, ctx.prop + ".json"), "w") as f:
             json.dump(ev, f, indent=1, ensure_ascii=True, default=str)
             f.write("\n")
     findings_desc = findings_desc or {}
